@@ -9,11 +9,62 @@ def oracle_conc(case, impl):
         return "well-formed query got %s instead of exactly one reply" % impl
     return oracle_sock(case, impl, check_question=True)
 
+def oracle_e2e(case, impl):
+    """C01 on the whole daemon: exactly one reply; it carries the query's ID; a reply that is not the upstream's message
+    byte for byte carries the query's question (locally built answer, NXDOMAIN or SERVFAIL); no reply without the ID."""
+    from props.c12 import parse_query, parse_reply
+    f = case.split(" ")
+    proto, payload = f[1], unhex(f[7])
+    if impl.startswith(("TIMEOUT", "ERR", "close", "SHORT", "bad-op")):
+        return "no reply to a well-formed %s query: %s" % (proto, impl[:40])
+    rep = unhex(impl)
+    if proto == "tcp":
+        if len(rep) < 2 or int.from_bytes(rep[:2], "big") != len(rep) - 2:
+            return "TCP length prefix does not match the message"
+        rep = rep[2:]
+    q = parse_query(payload)
+    if q is None:
+        return None
+    if len(rep) < 12:
+        return "reply of %d bytes" % len(rep)
+    if rep[:2] != payload[:2]:
+        return "reply carries ID 0x%s, the query had ID 0x%s" % (rep[:2].hex(), payload[:2].hex())
+    up = unhex(f[6][5:]) if f[6].startswith("U=0:H") else None
+    if up is not None:
+        cut = rep[:2] + bytes([rep[2] & 0xfd]) + rep[3:]
+        upc = up[:len(rep)]
+        if cut == upc[:2] + bytes([upc[2] & 0xfd]) + upc[3:]:
+            return None     # the upstream's message (possibly shortened with TC)
+    if proto == "udp" and rep[2] & 0x02:
+        # shortened with TC: only the header and the question section can be checked
+        qlen = len(q["question_wire"]) if "question_wire" in q else None
+        if qlen is None:
+            off = 12
+            while off < len(payload) and payload[off] != 0:
+                off += 1 + payload[off]
+            qlen = off + 1 + 4 - 12
+        if not (rep[2] & 0x80):
+            return "reply without the QR bit"
+        if rep[4:6] != b"\x00\x01" or rep[12:12 + qlen].lower() != payload[12:12 + qlen].lower():
+            return "shortened locally built reply does not carry the query's question"
+        return None
+    r = parse_reply(rep)
+    if r is None:
+        return "reply is neither the upstream's message nor a well-formed local response"
+    if r["qr"] != 1:
+        return "reply without the QR bit"
+    if r["questions"] != [q["question"]]:
+        return "locally built reply does not carry the query's question"
+    return None
+
+
 SPEC = dict(
     lean_module="NV.Props.C01",
     areas=[dict(name="sock", n_quick=3000, n_thorough=40000, shards_thorough=8, oracle=oracle_c01,
                 nontrivial=lambda c, i: len(i) > 8),
            dict(name="sockconc", n_quick=2400, n_thorough=32000, shards_thorough=4, oracle=oracle_conc,
+                nontrivial=lambda c, i: len(i) > 8),
+           dict(name="e2e", n_quick=1500, n_thorough=24000, shards_thorough=8, oracle=oracle_e2e, timeout=900,
                 nontrivial=lambda c, i: len(i) > 8)],
     level_text="Theorems over the handler model: exactly one write on every normal path of both handler closures (regenerated CFGs), "
                "SERVFAIL exactly on error/out-of-range size with the query's ID, upstream message passed byte for byte on TCP and as a "
